@@ -20,10 +20,20 @@ package dialer
 //@   ensures result == IdxUdp4 ==> k.Domain == HealthDomainDataUDP && k.IpVersion == consts.IpVersionStr_4
 //@   ensures result == IdxUdp6 ==> k.Domain == HealthDomainDataUDP && k.IpVersion == consts.IpVersionStr_6
 
+// the collection index is a function of (L4 protocol, effective UDP health domain, IP family) only
+//@ func (*NetworkType).HealthDomain
+//@   pure
+//@   ensures t == nil ==> result == HealthDomainUnset
+//@   ensures t != nil && t.L4Proto == consts.L4ProtoStr_TCP ==> result == HealthDomainTCP
+//@   ensures t != nil && t.L4Proto != consts.L4ProtoStr_TCP ==> result == (t.EffectiveUdpHealthDomain() == UdpHealthDomainDns ? HealthDomainDnsUDP : (t.EffectiveUdpHealthDomain() == UdpHealthDomainData ? HealthDomainDataUDP : HealthDomainUnset))
+//@ func (*NetworkType).HealthKey
+//@   pure
+//@   ensures t != nil ==> result.Domain == t.HealthDomain() && result.IpVersion == t.IpVersion
 //@ func (*NetworkType).Index
 //@   pure
-//@   trusted
+//@   maypanic
 //@   ensures 2 <= result && result < 8
+//@   ensures result == t.HealthKey().CollectionIndex()
 
 //@ func proxyFailureSuppressedForReload
 //@   pure
@@ -96,3 +106,116 @@ package dialer
 //@   ensures calls("triggerRecoveryDetection") == (success && isRevival ? 1 : 0)
 //@   ensures success ==> calls("markUnavailableFromProxyFailure") == 0 && calls("incrementBackoffLevelForType") == 0
 //@   ensures !success ==> calls("incrementBackoffLevelForType") == 1 && calls("resetStabilityCountForType") == 1 && calls("cancelPendingRecoveryConfirmationForType") == 1
+
+// ---------------------------------------------------------------------------------------------
+// C15: the alive set (swap-remove array + index map + cached best).
+//
+// wfSet(a): the representation invariant the selection functions rely on
+//   - the index map and the array agree (hence entries are pairwise distinct),
+//   - every sorting latency is below the one-hour sentinel,
+//   - the cached best, if any, is an alive member.
+//@ macro nEnt(a *AliveDialerSet) = len(a.aliveEntries)
+//@ macro entD(a *AliveDialerSet, i int) = a.aliveEntries[i].dialer
+//@ macro entL(a *AliveDialerSet, i int) = a.aliveEntries[i].sortingLatency
+//@ macro isAliveIn(a *AliveDialerSet, d *Dialer) = has(a.dialerToIndex, d) && a.dialerToIndex[d] >= 0
+//@ macro wfSet(a *AliveDialerSet) = (forall i int {entD(a, i)} :: 0 <= i && i < nEnt(a) ==> entD(a, i) != nil && has(a.dialerToIndex, entD(a, i)) && a.dialerToIndex[entD(a, i)] == i) \
+//@        && (forall d *Dialer {a.dialerToIndex[d]} :: has(a.dialerToIndex, d) && a.dialerToIndex[d] >= 0 ==> a.dialerToIndex[d] < nEnt(a) && entD(a, a.dialerToIndex[d]) == d) \
+//@        && (forall i int {entL(a, i)} :: 0 <= i && i < nEnt(a) ==> entL(a, i) < 3600000000000) \
+//@        && (a.minLatency.dialer != nil ==> isAliveIn(a, a.minLatency.dialer))
+
+// "random returns only alive nodes", never the excluded one; nil only when no other alive node exists
+//@ func (*AliveDialerSet).GetRandExcluded
+//@   requires wfSet(a)
+//@   ensures result != nil ==> isAliveIn(a, result) && (excluded != nil ==> result != excluded)
+//@   ensures result == nil ==> (forall i int :: 0 <= i && i < nEnt(a) ==> excluded != nil && entD(a, i) == excluded)
+//@   loop 1
+//@     invariant candidateCount >= 0 && candidateCount <= $idx && (chosen == nil <==> candidateCount == 0)
+//@     invariant chosen != nil ==> chosen != excluded && (exists k int :: 0 <= k && k < $idx && entD(a, k) == chosen)
+//@     invariant candidateCount == 0 ==> (forall k int :: 0 <= k && k < $idx ==> entD(a, k) == excluded)
+
+// min policies: the cached best unless it is the excluded node, else a minimum over the other alive nodes
+//@ func (*AliveDialerSet).GetMinLatency
+//@   requires wfSet(a)
+//@   ensures d != nil ==> isAliveIn(a, d) && (excluded != nil ==> d != excluded)
+//@   ensures a.minLatency.dialer != nil && a.minLatency.dialer != excluded ==> d == a.minLatency.dialer && latency == a.minLatency.sortingLatency
+//@   ensures (a.minLatency.dialer == nil || a.minLatency.dialer == excluded) && d != nil ==> (forall i int :: 0 <= i && i < nEnt(a) && entD(a, i) != excluded ==> latency <= entL(a, i))
+//@   ensures d == nil ==> (forall i int :: 0 <= i && i < nEnt(a) ==> entD(a, i) == excluded)
+//@   loop 1
+//@     invariant nextBestSortingLatency <= 3600000000000
+//@     invariant nextBest != nil ==> nextBest != excluded && (exists k int :: 0 <= k && k < $idx && entD(a, k) == nextBest && entL(a, k) == nextBestSortingLatency)
+//@     invariant nextBest == nil ==> nextBestSortingLatency == 3600000000000 && (forall k int :: 0 <= k && k < $idx ==> entD(a, k) == excluded)
+//@     invariant forall k int :: 0 <= k && k < $idx && entD(a, k) != excluded ==> nextBestSortingLatency <= entL(a, k)
+
+// beatenByTol(x, cur, tol): a node with sorting latency x is strictly better than the current choice
+// (latency cur) by the tolerance or more.
+//@ macro beatenByTol(x int, cur int, tol int) = x < cur && cur - x >= tol
+//@ macro wfEntries(a *AliveDialerSet) = (forall i int {entD(a, i)} :: 0 <= i && i < nEnt(a) ==> entD(a, i) != nil && has(a.dialerToIndex, entD(a, i)) && a.dialerToIndex[entD(a, i)] == i) \
+//@        && (forall i int {entL(a, i)} :: 0 <= i && i < nEnt(a) ==> -1800000000000 <= entL(a, i) && entL(a, i) < 3600000000000)
+
+// recomputation of the cached best: afterwards the best (if any) is an alive member that no alive node
+// beats by the tolerance or more; it is nil only when the set is empty.
+//@ func (*AliveDialerSet).calcMinLatency
+//@   requires wfEntries(a) && 0 <= a.tolerance && a.tolerance < 3600000000000 && -1800000000000 <= a.minLatency.sortingLatency && a.minLatency.sortingLatency <= 3600000000000
+//@   requires a.minLatency.dialer != nil ==> isAliveIn(a, a.minLatency.dialer)
+//@   modifies a.minLatency
+//@   ensures a.minLatency.dialer != nil ==> isAliveIn(a, a.minLatency.dialer)
+//@   ensures a.minLatency.dialer == nil ==> nEnt(a) == 0
+//@   ensures -1800000000000 <= a.minLatency.sortingLatency && a.minLatency.sortingLatency <= 3600000000000
+//@   ensures a.minLatency.dialer != nil ==> (forall i int {entL(a, i)} :: 0 <= i && i < nEnt(a) ==> !beatenByTol(entL(a, i), a.minLatency.sortingLatency, a.tolerance))
+//@   ensures old(a.minLatency.dialer) != nil && a.minLatency.dialer != old(a.minLatency.dialer) ==> \
+//@        a.minLatency.sortingLatency <= old(a.minLatency.sortingLatency) && (old(a.minLatency.sortingLatency) < a.tolerance || a.minLatency.sortingLatency <= old(a.minLatency.sortingLatency) - a.tolerance)
+//@   loop 1
+//@     invariant minLatency <= 3600000000000
+//@     invariant minDialer != nil ==> (exists k int :: 0 <= k && k < $idx && entD(a, k) == minDialer && entL(a, k) == minLatency)
+//@     invariant minDialer == nil ==> minLatency == 3600000000000
+//@     invariant forall k int {entL(a, k)} :: 0 <= k && k < $idx ==> minLatency <= entL(a, k)
+
+//@ func (*Dialer).snapshotLatencyForPolicy
+//@   trusted
+//@   ensures 0 <= result0 && result0 < 1800000000000
+//@ func (*NetworkType).String
+//@   pure
+//@   trusted
+//@ func (*AliveDialerSet).printLatencies
+//@   trusted
+
+//@ macro isMinPol(a *AliveDialerSet) = a.selectionPolicy == consts.DialerSelectionPolicy_MinLastLatency || a.selectionPolicy == consts.DialerSelectionPolicy_MinAverage10Latencies || a.selectionPolicy == consts.DialerSelectionPolicy_MinMovingAverageLatencies
+//@ macro offsOK(a *AliveDialerSet) = forall x *Dialer {a.dialerToLatencyOffset[x]} :: -1800000000000 <= a.dialerToLatencyOffset[x] && a.dialerToLatencyOffset[x] <= 1800000000000
+//@ macro wfBest(a *AliveDialerSet) = (a.minLatency.dialer != nil ==> isAliveIn(a, a.minLatency.dialer)) && -1800000000000 <= a.minLatency.sortingLatency && a.minLatency.sortingLatency <= 3600000000000 \
+//@        && (forall d *Dialer {a.dialerToIndex[d]} :: has(a.dialerToIndex, d) && a.dialerToIndex[d] >= 0 ==> a.dialerToIndex[d] < nEnt(a) && entD(a, a.dialerToIndex[d]) == d)
+
+// One notification (sequential; the alive-change callback is assumed not to re-enter the set):
+//   - the representation invariant is preserved,
+//   - exactly the notified node's membership changes, to the reported value,
+//   - the cached best, if any, is alive afterwards,
+//   - hysteresis: an alive, unchanged-membership previous best is replaced only by a candidate that is
+//     better by the tolerance or more, or merely better once the previous best latency is itself below
+//     the tolerance.
+//@ func (*AliveDialerSet).NotifyLatencyChange
+//@   nonilcheck
+//@   dyncalls noeffect
+//@   requires dialer != nil && a.dialerToIndex != nil && a.dialerToLatency != nil
+//@   requires wfEntries(a) && wfBest(a) && offsOK(a) && 0 <= a.tolerance && a.tolerance < 1800000000000
+//@   requires has(a.dialerToIndex, dialer)
+//@   requires !isMinPol(a) ==> a.minLatency.dialer == nil
+//@   modifies a.aliveEntries, a.minLatency, mapof(a.dialerToIndex), mapof(a.dialerToLatency), elems(a.aliveEntries)
+//@   ensures forall i int {entD(a, i)} :: 0 <= i && i < nEnt(a) ==> entD(a, i) != nil && has(a.dialerToIndex, entD(a, i)) && a.dialerToIndex[entD(a, i)] == i
+//@   ensures forall i int {entL(a, i)} :: 0 <= i && i < nEnt(a) ==> -1800000000000 <= entL(a, i) && entL(a, i) < 3600000000000
+//@   ensures a.minLatency.dialer != nil ==> isAliveIn(a, a.minLatency.dialer)
+//@   ensures -1800000000000 <= a.minLatency.sortingLatency && a.minLatency.sortingLatency <= 3600000000000
+//@   ensures forall d *Dialer {a.dialerToIndex[d]} :: has(a.dialerToIndex, d) && a.dialerToIndex[d] >= 0 ==> a.dialerToIndex[d] < nEnt(a) && entD(a, a.dialerToIndex[d]) == d
+//@   ensures !isMinPol(a) ==> a.minLatency.dialer == nil
+//@   ensures isAliveIn(a, dialer) == alive
+//@   ensures forall x *Dialer {a.dialerToIndex[x]} :: x != dialer ==> isAliveIn(a, x) == old(isAliveIn(a, x))
+//@   ensures old(a.minLatency.dialer) != nil && a.minLatency.dialer != old(a.minLatency.dialer) && a.minLatency.dialer != nil && old(a.minLatency.dialer) != dialer && has(old(a.dialerToLatency), old(a.minLatency.dialer)) ==> \
+//@        a.minLatency.sortingLatency <= old(a.minLatency.sortingLatency) && (old(a.minLatency.sortingLatency) < a.tolerance || a.minLatency.sortingLatency <= old(a.minLatency.sortingLatency) - a.tolerance)
+//@ func latencyString
+//@   trusted
+
+//@ func (*NetworkType).EffectiveUdpHealthDomain
+//@   pure
+//@   ensures t == nil || t.L4Proto != consts.L4ProtoStr_UDP ==> result == UdpHealthDomainUnset
+//@   ensures t != nil && t.L4Proto == consts.L4ProtoStr_UDP ==> result == (t.UdpHealthDomain != UdpHealthDomainUnset ? t.UdpHealthDomain : UdpHealthDomainData)
+//@ func (*Dialer).MustGetAlive
+//@   pure
+//@   trusted
